@@ -7,7 +7,7 @@ TRUSTED = ['SHA-256 is a parameter H (only |H x| = 32 assumed; conclusions are "
 ASSUMPTIONS = ['the stream is an in-memory reader: Read errors other than end of input do not occur',
                'callers pass maxRecordSize <= 2^63 (16384 in this repository): recordSize+32 does not wrap']
 RULE = ('honest streams for (payload, rs, draft) x every single-bit flip (small streams) / sampled flips x every truncation length x appended suffixes x record swaps x record-size field edits '
-        'x arbitrary streams against arbitrary digests x random Read-size sequences; compared: bytes returned per Read, concatenated output, final status class (eof / ErrValidationFailure / other); '
+        'x arbitrary streams against arbitrary digests x random Read-size sequences x source reader kinds (mice.dec.src: refused streams with data behind the size field, consumption measured at the caller\'s reader) x payloads of 2^k MiB + 1 and 33 MiB through Exchange.Verify; compared: bytes returned per Read, concatenated output, final status class (eof / ErrValidationFailure / other); '
         'non-trivial = stream is not the unmodified honest stream')
 EXHAUSTIVE = {}
 
@@ -192,10 +192,32 @@ def run(ctx):
     # bundle signatures: bodies of several records that are small as a whole (every record size below the body length)
     bops = []
     for v in ('b1', 'b2'):
-        for rs, blen in ((16, 40), (16, 16), (1, 5), (4096, 4097), (4096, 9000), (100, 101)):
+        for rs, blen in ((16, 40), (16, 16), (1, 5), (4096, 4097), (4096, 9000), (100, 101), (16, 0)):
             bb = bundlelib.bundle(v, b'https://example.com/', None, None, [bundlelib.exch(b'https://example.com/', 200, [(b'Content-Type', [b'text/plain'])], rbytes(rng, blen))])
             bops.append(f'bsig.sign {bb} {rs} {k["cert"]}:{hexs(b"ocsp")}:nil {k["key"]} {hexs(b"https://example.com/validity")} {d0} 3600')
     signed = [r[3:] for r in ctx.go(bops) if r and r.startswith('ok ')]
     if len(signed) < len(bops):
         ctx.infra.append(f'{len(bops) - len(signed)} bundles could not be signed')
     c06.verify_stage(ctx, [(b, (d0 + 10, 0)) for b in signed])
+    # the reader handed to NewDecoder is an input too: streams NewDecoder must refuse (record size 0 / above the limit) with 0, 1, 300,
+    # 5000 bytes behind the size field, through readers with / without ReadByte and Size(), one byte per Read, limited, concatenated,
+    # a real file -- "refused before any data is read": at most the 8-byte field is gone from the caller's reader; and honest /
+    # truncated / extended streams through every kind and behind an already consumed prefix (model side: alias of mice.dec)
+    ctx.both(list(micelib.src_refusals(rng)) + list(micelib.src_positions(rng)))
+    # "clean end-of-stream only after delivering that payload completely", one level up: payloads far longer than anything a consumer
+    # of the decoder might cap its reading at (1, 2, 4, 8, 16, 33 MiB plus a little; both drafts), the property's own round trip on the real
+    # code alone: what Exchange.Verify hands out for an honestly signed exchange is the whole payload (or nothing), never a prefix
+    big = []
+    for ver, n_ in (('b3', 2**20 + 1), ('b1', 2 * 2**20 + 1), ('b2', 4 * 2**20 + 1), ('b1', 8 * 2**20 + 1), ('b3', 8 * 2**20 + 1), ('b2', 16 * 2**20 + 1), ('b3', 33 * 2**20 + 5)):
+        e = list(sxglib.ex(ver, b'https://example.com/big', b'GET', [], 200, [(b'Content-Type', [b'text/html'])], b'', b''))
+        e[7] = f'rep:ab:{n_}'
+        big.append(f'sxg.rt.sign {sxglib.exs(e)} 16384 {k["cert"]} {k["key"]} {hexs(cu)} {hexs(vu)} {d0} {d0 + 3600} {k["chain"]} {d0 + 10}')
+    goenv = ctx.goenv
+    ctx.goenv = dict(goenv, VERIF_OP_TIMEOUT_MS=str(max(30000, int(goenv.get('VERIF_OP_TIMEOUT_MS', '4000')))))      # ~0.1 s per 4 MiB; a loaded machine must not turn into a verdict
+    try:
+        rbig = ctx.go(big)
+    finally:
+        ctx.goenv = goenv
+    for op, r in zip(big, rbig):
+        ctx.records.append((' '.join(op.split(' ')[:3]) + ' ... ' + op.split(' ')[8], r or 'crash', 'same'))
+
